@@ -440,6 +440,10 @@ class ScopeClient(BlockClient):
                                       "exit_scope reachable on a path on which this function did not enter a scope", call))
             return (st.set("$scope", F.const("closed")),)
         if d.endswith("SYMBOL_TABLES.remove"):
+            if st.get("$scope") == F.const("open"):
+                self.findings.append(("remove-while-open", "SYMBOL_TABLES.remove is reached while the scope entered by this function is still "
+                                      "the current one: SymbolTables.remove refuses that (SymbolTableError), which then replaces the "
+                                      "exception being propagated", call))
             return (st.set("$table", F.const("removed")),)
         return BlockClient.call_effect(self, call, st)
 
